@@ -476,6 +476,35 @@ def freshOfJson (js : Json) : R (Option (List Data)) := do
     | j => do pure (some (← dataOfJson j))
   return fresh.mapM id
 
+/-! event `race`: `EnsureRoutes` whose `b`-th write meets a conflict because the user replaced that very object between the
+    provider's read and that write.  For the model this is the step with budget `b` (the provider returns at the first
+    failed write) followed by the user's write to the ref whose `Update` failed; `raceTarget` says which ref that is. -/
+
+def storeFailAt (c : Codec) : Option Nat → List (Option Script × Obj) → Nat → Option Nat
+  | _, [], _ => none
+  | b, p :: r, i =>
+    match (if (storeIfAbsentW c p.2).2 then spend b else some b) with
+    | none => some i
+    | some b1 => storeFailAt c b1 r (i + 1)
+
+def applyFailAt : Option Nat → List Data → List (Option Script × Obj) → Nat → Option Nat
+  | b, d :: ds, p :: r, i =>
+    match (if (compareAndUpdate d p.2).2 then spend b else some b) with
+    | none => some i
+    | some b1 => applyFailAt b1 ds r (i + 1)
+  | _, _, _, _ => none
+
+def raceTarget (c : Codec) (b : Option Nat) (s : Strategy) (st : List Ref) : Option Nat :=
+  match getAll st with
+  | none => none
+  | some objs =>
+    match (storeLoop c b objs).2 with
+    | none => storeFailAt c b objs 0
+    | some b1 =>
+      match planAll c s (storeLoop c b objs).1 with
+      | none => none
+      | some ds => applyFailAt b1 ds (storeLoop c b objs).1 0
+
 def handleHist (inp impl : Json) : R OpResult := do
   let stable ← fStr inp "stable"
   let canary ← fStr inp "canary"
@@ -571,7 +600,7 @@ def handleHist (inp impl : Json) : R OpResult := do
       | some r => kindsP := removeAt j kindsP; kindsA := kindsA ++ [r]
       | none => tags := tags ++ ["index:out-of-range"]
       recJ := [("res", .null)]
-    | "step" =>
+    | "step" | "race" =>
       let b ← budgetOfJson e
       let s ← strategyOfJson (← jget e "strategy")
       strategies := strategies ++ [s]
@@ -590,6 +619,24 @@ def handleHist (inp impl : Json) : R OpResult := do
                        ("fresh", arrJ (us.active.map fun u => freshHist u s))]
         w := { w with active := st2 }
       | .err => pure ()
+      -- the concurrent writer of a `race`
+      if ev == "race" then
+        match raceTarget codec b s pre with
+        | some i =>
+          let objsJ ← fArr e "objs"
+          match objsJ[i]? with
+          | some oj =>
+            let o ← objOfJson oj
+            if !(noOrig o) then .error "hist: generator must supply manifests without the provider's annotation"
+            let evm := Event.userWrite i o
+            w := (runEv codec evm w).1
+            us := usersEv evm us
+            match getAt i kindsA with
+            | some r => written := written ++ [(r.supported, o)]
+            | none => pure ()
+            tags := tags ++ ["race:user-replaced-the-object-under-the-write"]
+          | none => .error "hist: race without a manifest for the conflicting ref"
+        | none => tags := tags ++ ["race:no-write-reached"]
       -- tags
       tags := tags ++ strategyTags s
       if b.isSome then tags := tags ++ ["step:with-fault-budget"]
